@@ -25,6 +25,7 @@ type plan struct {
 	TPs     [][2]int // topic index, partition (may be out of range / unknown topic index 3)
 	Names   []int    // group / key / txn-id indices (9 = very unlikely known)
 	Dup     bool
+	Split   bool     // a topic may appear in several topic entries of the request (one per run of items)
 	Moves   [][3]int // topic, partition, node - applied after a warm-up request (stale cache)
 	Rehash  bool
 	Inject  bool // answer one shard once with a retriable NOT_LEADER / NOT_COORDINATOR
@@ -48,6 +49,7 @@ func genPlan(t *rapid.T) plan {
 		p.Names = append(p.Names, rapid.IntRange(0, 9).Draw(t, "name"))
 	}
 	p.Dup = rapid.IntRange(0, 3).Draw(t, "dup") == 0
+	p.Split = rapid.IntRange(0, 2).Draw(t, "split") == 0
 	nm := rapid.IntRange(0, 4).Draw(t, "nmoves")
 	for i := 0; i < nm; i++ {
 		p.Moves = append(p.Moves, [3]int{rapid.IntRange(0, 2).Draw(t, "mt"), rapid.IntRange(0, 5).Draw(t, "mp"), rapid.IntRange(0, p.Brokers-1).Draw(t, "node")})
@@ -70,13 +72,30 @@ func build(p plan) (kmsg.Request, []string) {
 	set := map[string]bool{}
 	byTopic := map[string][]int32{}
 	var order []string
+	// order holds entry keys "topic" or, in split plans, "topic#k": a new topic entry starts
+	// whenever the topic of consecutive items changes, so one topic can have several entries
+	prev, run := "", 0
 	for _, x := range tps {
 		t := topicName(x[0])
-		if _, ok := byTopic[t]; !ok {
-			order = append(order, t)
-		}
-		byTopic[t] = append(byTopic[t], int32(x[1]))
 		set[fmt.Sprintf("%s/%d", t, x[1])] = true
+		key := t
+		if p.Split {
+			if t != prev {
+				run++
+			}
+			prev = t
+			key = fmt.Sprintf("%s#%d", t, run)
+		}
+		if _, ok := byTopic[key]; !ok {
+			order = append(order, key)
+		}
+		byTopic[key] = append(byTopic[key], int32(x[1]))
+	}
+	topicOf := func(key string) string {
+		if i := strings.IndexByte(key, '#'); i >= 0 {
+			return key[:i]
+		}
+		return key
 	}
 	nameSet := map[string]bool{}
 	var nameList []string
@@ -99,7 +118,7 @@ func build(p plan) (kmsg.Request, []string) {
 		req.ReplicaID = -1
 		for _, t := range order {
 			rt := kmsg.NewListOffsetsRequestTopic()
-			rt.Topic = t
+			rt.Topic = topicOf(t)
 			for _, pt := range byTopic[t] {
 				rp := kmsg.NewListOffsetsRequestTopicPartition()
 				rp.Partition, rp.Timestamp, rp.CurrentLeaderEpoch = pt, -1, -1
@@ -113,7 +132,7 @@ func build(p plan) (kmsg.Request, []string) {
 		req.TimeoutMillis = 5000
 		for _, t := range order {
 			rt := kmsg.NewDeleteRecordsRequestTopic()
-			rt.Topic = t
+			rt.Topic = topicOf(t)
 			for _, pt := range byTopic[t] {
 				rp := kmsg.NewDeleteRecordsRequestTopicPartition()
 				rp.Partition, rp.Offset = pt, 0
@@ -127,7 +146,7 @@ func build(p plan) (kmsg.Request, []string) {
 		req.ReplicaID = -1
 		for _, t := range order {
 			rt := kmsg.NewOffsetForLeaderEpochRequestTopic()
-			rt.Topic = t
+			rt.Topic = topicOf(t)
 			for _, pt := range byTopic[t] {
 				rp := kmsg.NewOffsetForLeaderEpochRequestTopicPartition()
 				rp.Partition, rp.CurrentLeaderEpoch, rp.LeaderEpoch = pt, -1, 0
@@ -140,7 +159,7 @@ func build(p plan) (kmsg.Request, []string) {
 		req := kmsg.NewPtrDescribeProducersRequest()
 		for _, t := range order {
 			rt := kmsg.NewDescribeProducersRequestTopic()
-			rt.Topic = t
+			rt.Topic = topicOf(t)
 			rt.Partitions = byTopic[t]
 			req.Topics = append(req.Topics, rt)
 		}
@@ -419,6 +438,9 @@ func TestShardedAccounting(t *testing.T) {
 		}
 		if p.Inject {
 			ev.Class("retriable-error-injected")
+		}
+		if p.Split {
+			ev.Class("topic-repeated-in-several-request-entries")
 		}
 		ev.SampleIf(func() any { return map[string]any{"plan": fmt.Sprintf("%+v", p), "shards": nshards} })
 	})
